@@ -194,6 +194,9 @@ fn step(ops: &[Op], fp: &Fp, path: &[u8], oi: usize) -> StepResult {
     let mutating = !matches!(op, Op::Freeze | Op::Reset);
     match &r {
         Err(()) => {
+            if !frozen && matches!(op, Op::Fput(_) | Op::Push(_)) {
+                viols.push(("fput and push never fail unless the builder is frozen (as documented)".into(), "Ok".into(), format!("Err on {before_s:?}")));
+            }
             let mut qp2 = None;
             let after_q = queries(&b, &mut qp2);
             if after_q != before_q {
@@ -267,6 +270,8 @@ fn step(ops: &[Op], fp: &Fp, path: &[u8], oi: usize) -> StepResult {
 }
 
 const LEN_BOUND: usize = 24;
+/// repetitions in the chains of stage (b): long enough to pass 20 digits (beyond u64 and f64 precision)
+const CHAIN: usize = 24;
 
 pub fn run(tier: Tier) -> i32 {
     let ctx = Ctx::new("C12", tier);
@@ -383,7 +388,7 @@ pub fn run(tier: Tier) -> i32 {
             });
         }
     }
-    // ---- (b) repetition chains: from every state reached within 2 operations, each operation repeated 12 times
+    // ---- (b) repetition chains: from every state reached within 2 operations, each operation repeated 24 times
     // (accumulating effects such as many leading zeros, repeated shifts or pushes), all invariants on every step
     let mut chain_steps = 0u64;
     let mut starts: Vec<(Fp, Vec<u8>)> = seen.iter().filter(|(_, p)| p.len() <= 2).map(|(f, p)| (f.clone(), p.clone())).collect();
@@ -394,7 +399,7 @@ pub fn run(tier: Tier) -> i32 {
             let mut out = vec![];
             for oi in 0..ops.len() {
                 let (mut fp, mut path) = (fp0.clone(), path0.clone());
-                for _ in 0..12 {
+                for _ in 0..CHAIN {
                     let r = step(&ops, &fp, &path, oi);
                     if !r.viols.is_empty() {
                         out.push((path.clone(), oi, r.viols));
@@ -420,7 +425,7 @@ pub fn run(tier: Tier) -> i32 {
             }
         }
     }
-    chain_steps += (starts.len() * ops.len() * 12) as u64;
+    chain_steps += (starts.len() * ops.len() * CHAIN) as u64;
     acc.transitions += chain_steps;
     acc.traces += chain_steps;
     acc.count("repetition_chain_steps_upper_bound", chain_steps);
@@ -440,7 +445,7 @@ pub fn run(tier: Tier) -> i32 {
         "length_bound": LEN_BOUND,
         "successors_beyond_length_bound": dropped_by_len,
         "queries_per_state": 5 + 10 + 4 + 36 + 1,
-        "extra": "every state within 3 operations is reset and compared operation by operation with a new builder; from every state within 2 operations each operation is repeated 12 times",
+        "extra": "every state within 3 operations is reset and compared operation by operation with a new builder; from every state within 2 operations each operation is repeated 24 times",
     });
     ctx.finish(acc, cov, vec![
         "only ASCII digit arguments are fed; is_range_free's documented precondition start < end is honoured".into(),
